@@ -9,6 +9,7 @@ import (
 
 	"github.com/olive-io/bpmn/schema"
 	bpmn "github.com/olive-io/bpmn/v2"
+	"github.com/olive-io/bpmn/v2/pkg/data"
 	"github.com/olive-io/bpmn/v2/pkg/event"
 	"github.com/olive-io/bpmn/v2/pkg/id"
 	"github.com/olive-io/bpmn/v2/pkg/tracing"
@@ -178,6 +179,8 @@ type ProcCase struct {
 	CancelAt int      `json:"cancelAt,omitempty"` // cancel when this many traces were observed (0 = never)
 	NoAnswer map[string]bool `json:"noAnswer,omitempty"`
 	Shutdown bool     `json:"shutdown,omitempty"` // cancel at the end and observe the shutdown
+	Meta     map[string]int `json:"meta,omitempty"`
+	Objs     map[string]any `json:"objs,omitempty"` // initial data objects
 
 	env  *Env
 	defs *schema.Definitions
@@ -221,7 +224,21 @@ func (c *ProcCase) Main() {
 	defer cancel()
 	gen := &ctrGen{prefix: "id"}
 	engine := bpmn.NewEngine(bpmn.WithEngineContext(ctx))
-	proc, err := engine.NewProcess(c.defs, bpmn.WithContext(ctx), bpmn.WithVariables(c.Prog.Vars), bpmn.WithIdGenerator(gen))
+	opts := []bpmn.Option{bpmn.WithContext(ctx), bpmn.WithVariables(c.Prog.Vars), bpmn.WithIdGenerator(gen)}
+	proc, err := engine.NewProcess(c.defs, opts...)
+	if err == nil && len(c.Objs) > 0 {
+		if loc, ok := proc.Locator().FindIItemAwareLocator(data.LocatorObject); ok {
+			for _, k := range sortedKeys(c.Objs) {
+				if aware, found := loc.FindItemAwareByName(k); found {
+					aware.Put(schema.NewValue(c.Objs[k]))
+				} else {
+					L.Add("fatal", "data object "+k+" not declared", "", 0)
+				}
+			}
+		} else {
+			L.Add("fatal", "no data object locator", "", 0)
+		}
+	}
 	if err != nil {
 		c.Err = "NewProcess: " + err.Error()
 		L.Add("fatal", c.Err, "", 0)
@@ -427,4 +444,13 @@ func canon(v any) string {
 		return b.String()
 	}
 	return fmt.Sprintf("?%T:%v", v, v)
+}
+
+func sortedKeys(m map[string]any) []string {
+	out := make([]string, 0, len(m))
+	for k := range m {
+		out = append(out, k)
+	}
+	sort.Strings(out)
+	return out
 }
